@@ -398,3 +398,37 @@ class Forward:
                             add(t["dest"]["l"])
                     else:
                         self.uses.append(("call", bi, "term", c))
+
+
+def implied_true_calls(body, block, _depth=0, _seen=None):
+    """Calls whose boolean result is necessarily `true` whenever `block` executes.  Understands
+    short-circuit `a() && b()` lowering (`t = b()` on one arm, `t = false` on the other)."""
+    out = []
+    _seen = _seen if _seen is not None else set()
+    if _depth > 6 or block in _seen:
+        return out
+    _seen.add(block)
+    for cd in conds(body):
+        tt = None
+        for v, t in cd.arms:
+            if v == 0:
+                tt = cd.otherwise
+        if tt is None or cd.t.get("dty") != "bool":
+            continue
+        if block not in edge_dominated(body, cd.bb, tt):
+            continue
+        pl = op_place(cd.t["d"])
+        if pl is None or pl["p"]:
+            continue
+        defs = body.defs().get(pl["l"], [])
+        live = []
+        for d in defs:
+            bi, si, kind, payload = d
+            if kind == "assign" and payload["rv"]["k"] == "use" and const_int(payload["rv"]["a"][0]) == 0:
+                continue  # `t = false` can never take the true edge
+            live.append(d)
+        if len(live) == 1 and live[0][2] == "call":
+            c = live[0][3]
+            out.append(c)
+            out += implied_true_calls(body, c.bb, _depth + 1, _seen)
+    return out
